@@ -80,6 +80,7 @@ func replayMain(args []string) int {
 	const filename = "in0.dbc"
 	o, pres := runParse(filename, text)
 	show("parse", pres)
+	show("parse (hex number mode)", runParseHex(filename, text))
 	if o.Class == "ok" && dbccase.WideMux(o.File, maxSelectorBits) {
 		fmt.Println("import: excluded (multiplexor wider than 16 bits)")
 	} else {
